@@ -213,6 +213,20 @@ def run(chk, parts=('L1', 'L2', 'L2b', 'L3')):
                             % fname, LEX, n['l'])
         chk.floor('consume().unwrap() sites', sites, 30)
     # ---- L2 escape arms
+    # Lexer::push_escaped(s, text, consumed) appends `text` and records consumed - chars(text); both emit functions add the recorded difference to the advance
+    push_escaped_ok = False
+    pe = by.get('Lexer::push_escaped')
+    if pe is not None:
+        appends = any(c.get('k') == 'MCall' and c['n'] == 'push_str' and T.show(T.peel(c['a'][0])) == 'text' for c in T.calls(pe['body']))
+        rec = [n for n in T.walk(pe['body']) if n.get('k') == 'AssignOp' and n['op'] in ('+', '+=') and 'token_col_shift' in T.show(n['x'])]
+        formula = rec and T.norm(T.show(rec[0]['y'])).replace(' ', '') in ('consumedasi32-text.chars().count()asi32', 'consumedas_-text.chars().count()as_')
+        used = all(any('token_col_shift' in T.show(n) for n in T.walk(by[nm]['body']) if n.get('k') in ('Let', 'AssignOp', 'Assign'))
+                   and any(n.get('k') in ('Assign', 'AssignOp') and 'col_token_starts' in T.show(n['x']) and ('shift' in T.show(n['y'])) for n in T.walk(by[nm]['body']))
+                   for nm in ('Lexer::emit_singleline_token', 'Lexer::emit_multiline_token') if nm in by)
+        push_escaped_ok = bool(appends and formula and used)
+        if not push_escaped_ok:
+            chk.lost.append('Lexer::push_escaped exists but is not of the form `s.push_str(text); self.token_col_shift += consumed as i32 - text.chars().count() as i32` '
+                            'with both emit functions adding the shift to the column (appends=%s formula=%s used=%s)' % (appends, bool(formula), used))
     escapes = 0
     for f in fns:
         fname = T.norm(f['path'])
@@ -236,8 +250,18 @@ def run(chk, parts=('L1', 'L2', 'L2b', 'L3')):
                     continue
                 pushed = 0
                 extra = 0
+                recorded = 0        # consumed-minus-appended difference handed to the column bookkeeping (push_escaped)
                 for c in T.calls(body):
-                    if c.get('k') == 'MCall' and c['n'] == 'push' and T.show(c['r']) == 's':
+                    if c.get('k') == 'MCall' and c['n'] == 'push_escaped' and len(c['a']) == 3:
+                        lit, cons = T.peel(c['a'][1]), T.lit_int(T.peel(c['a'][2]))
+                        txt = (lit.get('v') or {}).get('str') if lit.get('k') == 'Lit' else None
+                        n_app = len(txt) if txt is not None else (1 if 'encode_utf8' in T.show(lit) else None)
+                        if n_app is None or cons is None or not push_escaped_ok:
+                            pushed += 10 ** 6      # not understood: reported below as a mismatch
+                        else:
+                            pushed += n_app
+                            recorded += cons - n_app
+                    elif c.get('k') == 'MCall' and c['n'] == 'push' and T.show(c['r']) == 's':
                         pushed += 1
                     elif c.get('k') == 'MCall' and c['n'] == 'push_str' and T.show(c['r']) == 's':
                         lit = T.peel(c['a'][0])
@@ -245,6 +269,7 @@ def run(chk, parts=('L1', 'L2', 'L2b', 'L3')):
                     elif c.get('k') == 'MCall' and c['n'] == 'consume' and T.show(c['r']) == 'self':
                         extra += loop_factor(body, c)
                 consumed = 2 + extra
+                pushed += recorded       # what the column finally advances by: appended characters + recorded difference
                 for ch in chars:
                     escapes += 1
                     if pushed == consumed:
@@ -259,7 +284,7 @@ def run(chk, parts=('L1', 'L2', 'L2b', 'L3')):
         f = by.get(nm)
         if not chk.need(f is not None, nm + ' not found'):
             continue
-        adv = [n for n in T.walk(f['body']) if n.get('k') == 'AssignOp' and 'col_token_starts' in T.show(n['x'])]
+        adv = [n for n in T.walk(f['body']) if 'col_token_starts' in T.show(n.get('x') or {}) and (n.get('k') == 'AssignOp' or (n.get('k') == 'Assign' and 'col_token_starts +' in T.show(n['y'])))]
         chk.need(bool(adv), '%s no longer advances col_token_starts' % nm)
     # ---- L2b bytes as columns
     nb = 0
@@ -692,9 +717,19 @@ def l7(chk, by):
         f = by.get(nm)
         if not chk.need(f is not None, nm + ' not found'):
             continue
-        adv = [n for n in T.walk(f['body']) if n.get('k') == 'AssignOp' and 'col_token_starts' in T.show(n['x'])]
-        env_txt = ' '.join(T.show(n) for n in T.walk(f['body']) if n.get('k') == 'Let')
-        uses = any('token_line_start' in T.show(n['y']) or any(l.get('k') == 'Local' and l['n'] in env_txt.split('token_line_start')[0].split('let ')[-1] for l in T.walk(n['y']) if 'token_line_start' in env_txt) for n in adv)
+        adv = [n for n in T.walk(f['body']) if 'col_token_starts' in T.show(n.get('x') or {}) and (n.get('k') == 'AssignOp' or (n.get('k') == 'Assign' and 'col_token_starts +' in T.show(n['y'])))]
+        lets = {}
+        for n in T.walk(f['body']):
+            if n.get('k') == 'Let' and n.get('init') is not None:
+                for b in T.walk(n['pat']):
+                    if b.get('k') == 'Bind':
+                        lets[b['id']] = n['init']
+
+        def derives(e, seen=()):
+            if 'token_line_start' in T.show(e):
+                return True
+            return any(x.get('k') == 'Local' and x.get('id') in lets and x['id'] not in seen and derives(lets[x['id']], seen + (x['id'],)) for x in T.walk(e))
+        uses = any(derives(n['y']) for n in adv)
         if adv and uses:
             chk.ok(rule, nm)
         else:
